@@ -1,25 +1,5 @@
 // ---- trusted stubs for integer/src/div/divide_conquer.rs (unit int_div_dc). Word = @W@ ----------------------------
-// Needs lib/prelude.rs, lib/sign.rs (Sign, sgn), lib/div_dword_stubs.rs (FastDivideNormalized2).
-
-/// integer/src/memory.rs: scratch memory handed down to the multiplication. Opaque.
-#[verifier::external_body]
-pub struct Memory<'a> { _p: &'a u8 }
-
-/// "rhs is normalized and fd is the reciprocal of its two top words"
-pub open spec fn div_prepared(rhs: Seq<Word>, fd: FastDivideNormalized2) -> bool {
-    rhs.len() >= 2 && fd.wf() && fd.divisor() == rhs[rhs.len() - 2] as int + (rhs[rhs.len() - 1] as int) * B()
-}
-
-/// the contract shared by every `div_rem_in_place` flavour (the one PROVED for simple::div_rem_in_place):
-/// l1 = [a % b (n words), a / b], carry `ret` on top of the quotient
-pub open spec fn div_post(l0: Seq<Word>, l1: Seq<Word>, rhs: Seq<Word>, ret: bool) -> bool {
-    let n = rhs.len() as int;
-    let len = l0.len() as int;
-    l1.len() == l0.len()
-    && val(l0) == (val(l1.subrange(n, len)) + b2i(ret) * pw(len - n)) * val(rhs) + val(l1.subrange(0, n))
-    && val(l1.subrange(0, n)) < val(rhs)
-    && ret == (val(l0.subrange(len - n, len)) >= val(rhs))
-}
+// Needs lib/prelude.rs, lib/sign.rs (Sign, sgn), lib/div_dword_stubs.rs, lib/div_post_spec.rs (Memory, div_post).
 
 pub mod mul {
 use super::*;
